@@ -56,6 +56,11 @@ var corpus = []string{
 	"fo:a2,i1,s61 nb:list an:1:0 bu:1 nb:any an:4:0 bu:4",
 	// producers
 	"mk:cbor:m2,k61,a2,i1,b6162,k6262,s78 mk:json:a2,m1,k61,n,t lk:0:61 li:2:0 tf:0:s61/i1:3 en:4",
+	// encoding a link right after a bytes value long enough to hold tag bytes + CID: the encoder must not build the
+	// link's bytes in a buffer that still aliases the bytes node it emitted before (list order, map key order)
+	"mk:cbor:a2,b4142434445464748494a4b4c4d4e4f505152535455565758595a5b5c5d5e5f606162636465666768,l0171122000070e151c232a31383f464d545b626970777e858c939aa1a8afb6bdc4cbd2d9 en:0 en:0 cp:0:any en:0",
+	"mk:cbor:m3,k61,b4142434445464748494a4b4c4d4e4f505152535455565758595a5b5c5d5e5f606162636465666768,k62,i1,k63,l0171122000070e151c232a31383f464d545b626970777e858c939aa1a8afb6bdc4cbd2d9 en:0 cp:0:map en:0",
+	"mk:json:a3,b4142434445464748494a4b4c4d4e4f505152535455565758595a5b5c5d5e5f606162636465666768,l0171122000070e151c232a31383f464d545b626970777e858c939aa1a8afb6bdc4cbd2d9,b4142434445464748494a4b4c4d4e4f505152535455565758595a5b5c5d5e5f606162636465666768 en:0 en:0",
 	// stale handles
 	"nb:any bm:0:2 ae:1:61 bm:2:0 as:2:i1 fi:3",
 	"nb:list bl:0:0 av:1 bl:2:0 rs:0 bl:0:0 av:5 fi:3 fi:5 bu:0",
